@@ -4,6 +4,7 @@
 //!        itv replay <ID> <file>
 //!        itv worker <kind> <cases-file> <shard> <nshards> <out-file>
 
+mod envprobe;
 mod explore;
 mod keys;
 mod olpc;
